@@ -83,12 +83,22 @@ def nontrivial(e):
     return e.get('n', 0) >= 2 or e.get('panic')
 
 
-def census(ctx, events_path, expect):
-    """vacuity guard: every (op, ty) branch of Trace_Gauss must have been exercised; returns worst float units"""
+HARD = ('uscale', 'bal', 'tinycol', 'tinyrow', 'unitpiv', 'cyc_upper', 'zerostage', 'depcol')
+
+
+def census(ctx, events_path, expect, families=False):
+    """vacuity guard: every (op, ty) branch of Trace_Gauss must have been exercised - with families=True also by the
+    sequence cases (after at least one mutator) and by the special-value / extreme-magnitude families; returns worst float units"""
     cnt = collections.Counter()
+    grp = collections.Counter()
     worst = collections.defaultdict(int)
     for e in vlib.read_ndjson(events_path):
         cnt[(e['op'], e['ty'])] += 1
+        fam = e.get('fam', '')
+        if fam.startswith('seq_') and e.get('k', 0) >= 2:
+            grp[('seq', e['op'], e['ty'])] += 1
+        if fam.startswith(HARD) and (e['ty'] == 'rat' or fam.startswith(('uscale', 'bal', 'tiny'))):
+            grp[('hard', e['op'], e['ty'])] += 1
         for k in ('units_m', 'runits_m', 'lunits_m'):
             if k in e:
                 kk = '%s.%s.%s' % (e['op'], k, e['ty'])
@@ -96,6 +106,8 @@ def census(ctx, events_path, expect):
     for k in expect:
         if cnt[k] == 0:
             raise vlib.ToolError('no %s/%s event in %s: a branch of Trace_Gauss is not exercised' % (k[0], k[1], events_path))
+        if families and (grp[('seq',) + k] == 0 or grp[('hard',) + k] == 0):
+            raise vlib.ToolError('no sequence / special-family %s/%s event in %s' % (k[0], k[1], events_path))
     return cnt, worst
 
 
